@@ -4,13 +4,18 @@ Properties/C15.lean — clusters are connected components of the neighbour graph
 `graph_clustering(..., 'cc')`; `Connected` is the reflexive transitive closure of the undirected
 adjacency `Adj`.  The neighbour graph is the edge list of the triplets returned by the default
 search (`symdelDefault`, exact by property C01).
-NOT covered by a theorem: SciPy's `linkage(method='single')` + `fcluster(criterion='distance')`
-is external; `C15_single_linkage_partial` ASSUMES its standard characterisation (hypothesis
-`hSciPy`) and only proves the reduction to connected components.  The community methods
+SciPy's `linkage(method='single')` + `fcluster(criterion='distance')` is external; it is MODELLED by
+the textbook agglomeration `linkRun` / `flatSingle` / `singleHeights` (Model/Linkage.lean, tied to
+SciPy by the correspondence check: merge heights and flat partitions).  For that model the identity
+"single linkage at t = components of the max_edits = t neighbour graph" is a theorem
+(`C15_single_linkage`); `C15_single_linkage_partial` is the older form that takes the characterisation
+of the flat clusters as a hypothesis (kept: it applies to ANY clustering routine satisfying it).
+The average / complete linkage methods are not modelled.  The community methods
 (leiden, louvain, …) are external too; `RefinesComponents` is the predicate checked on their output.
 Only property theorems and non-vacuity examples live here; helper lemmas are in Proofs/.
 -/
 import Prs.Proofs.Cluster
+import Prs.Proofs.Linkage
 namespace Prs
 variable {α : Type} [DecidableEq α]
 
@@ -76,6 +81,40 @@ theorem C15_single_linkage_partial (xs : List (List α)) (t : Nat) (sameFlat : N
   rw [hSciPy u v hu hv, C15_cc_same_cluster _ _ (C15_neighbour_edges_in xs t) u v hu hv,
     connected_neighbourEdges_iff]
 
+/-- the flat single-linkage clusters at height t partition the observations -/
+theorem C15_single_linkage_partition (d : Nat → Nat → Rat) (n : Nat) (t : Rat) :
+    (flatSingle d n t).flatten.Perm (List.range n) ∧ ∀ c ∈ flatSingle d n t, c ≠ [] :=
+  ⟨flatSingle_partition d n t, flatSingle_nonempty d n t⟩
+
+/-- two observations share a flat single-linkage cluster at height t exactly when a chain of
+observations with consecutive distances ≤ t joins them — for ANY symmetric distance (string metrics,
+TCR metrics, summed chains) -/
+theorem C15_single_linkage_chain (d : Nat → Nat → Rat) (hsymm : ∀ i j, d i j = d j i) (n : Nat) (t : Rat)
+    (u v : Nat) (hu : u < n) (hv : v < n) :
+    (flatLabel (flatSingle d n t) u = flatLabel (flatSingle d n t) v ↔
+      Relation.ReflTransGen (dAdj d n t) u v) ∧ (flatLabel (flatSingle d n t) u).isSome :=
+  ⟨flatLabel_same_iff d hsymm n t u v hu hv, flatLabel_isSome d n t u hu⟩
+
+/-- with the Levenshtein distances of the sequences and threshold t, the single-linkage partition equals
+the connected components of the max_edits = t neighbour graph (no hypothesis about SciPy: the
+agglomeration is the model) -/
+theorem C15_single_linkage (xs : List (List α)) (t : Nat) (u v : Nat) (hu : u < xs.length)
+    (hv : v < xs.length) :
+    flatLabel (flatSingle (levDist xs) xs.length (t : Rat)) u
+        = flatLabel (flatSingle (levDist xs) xs.length t) v ↔
+      (components xs.length (neighbourEdges (symdelDefault t xs)))[u]? =
+        (components xs.length (neighbourEdges (symdelDefault t xs)))[v]? :=
+  flatSingle_lev_components xs t u v hu hv
+
+/-- the dendrogram: n - 1 merges, at heights that never decrease; cutting at t performs exactly the
+merges whose height is ≤ t (so `fcluster(criterion='distance')` on the linkage matrix and stopping
+the agglomeration at t agree) -/
+theorem C15_single_linkage_heights (d : Nat → Nat → Rat) (hsymm : ∀ i j, d i j = d j i) (n : Nat) :
+    (singleHeights d n).length = n - 1 ∧ (singleHeights d n).Pairwise (· ≤ ·) ∧
+    ∀ t : Rat, flatSingle d n t
+      = (linkRun d none ((singleHeights d n).filter (· ≤ t)).length (singletons n)).1 :=
+  ⟨singleHeights_length d n, singleHeights_sorted d hsymm n, fun t => flatSingle_eq_prefix d hsymm n t⟩
+
 /-! non-vacuity: a path 0 — 1 — 2 plus the isolated vertex 3: one cluster {0,1,2} labelled 0, the
 singleton 3 is not reported; "AB" – "B" – "" chain at threshold 1 joins positions 0 and 2 although
 lev "AB" "" = 2 -/
@@ -94,5 +133,13 @@ example : ¬ Adj (neighbourEdges (symdelDefault 1 [['A', 'B'], ['B'], []])) 0 2 
   subst ha hb
   simp [lev] at hl
 
-end Prs
+/-- three observations at positions 0, 1, 5 on a line: cut at 1 joins {0, 1} and leaves 2 alone; the
+dendrogram merges at heights 1 and 4; observation 0 and 1 are chained, 0 and 2 are not -/
+def dLine : Nat → Nat → Rat := fun i j =>
+  (([[0, 1, 5], [1, 0, 4], [5, 4, 0]] : List (List Rat)).getD i []).getD j 0
+example : flatSingle dLine 3 1 = [[2], [0, 1]] := by decide +kernel
+example : singleHeights dLine 3 = [1, 4] := by decide +kernel
+example : flatLabel (flatSingle dLine 3 1) 0 = flatLabel (flatSingle dLine 3 1) 1 ∧
+    flatLabel (flatSingle dLine 3 1) 0 ≠ flatLabel (flatSingle dLine 3 1) 2 := by decide +kernel
 
+end Prs
